@@ -451,3 +451,7 @@ def run(ctx, rep, tier):
         pivot_sites(rep, F, tag)
         reset_complete(rep, F, E, tag)
         triu_test(rep, F, tag)
+        # "refactoring after value updates equals factoring the updated matrix": update / scale / offset go through the
+        # entry map AtoPAPt in every arm (C08.R5 back-end rule re-run)
+        from . import c08, c04
+        c08.kkt_mirror(c04._Ren(rep, 'C08.R5', 'C12.R10'), F, E, G, tag)
